@@ -138,7 +138,7 @@ fn docs(k: usize, f: impl Fn(&B)) {
     }
 }
 
-//@ props: C11
+//@ props: UNREACHED-C11
 //@ timeout: 1800
 //@ harness: c11_accessors
 //@ desc: array_length, get_by_index (0..=3), get_by_name (symbolic name, both case modes), object_keys, array_values, type_of, is_*/as_* views, exists_any/all_keys, traverse_check_string on six documents ([n,s,null], {a:n,b:[true]}, n, s, [[s],{k:null}], false; two-digit numbers, plain ASCII strings) given as JSON text and as JSONB: identical results
@@ -189,7 +189,7 @@ harness!(c11_accessors, split1(6, |k| docs(k, |d| {
     assert!(traverse_check_string(tb, pred) == traverse_check_string(db, pred), "traverse_check_string");
 })));
 
-//@ props: C11
+//@ props: UNREACHED-C11
 //@ timeout: 1800
 //@ harness: c11_keypath
 //@ desc: get_by_keypath and delete_by_keypath with one- and two-element key paths (indices -4..=4 by case split, symbolic names) on [n,s,null], {a:n,b:[true]}, [[s],{k:null}] given as text and as JSONB: identical results
@@ -218,7 +218,7 @@ harness!(c11_keypath, split1(3, |k| docs([0, 1, 4][k], |d| {
     }
 })));
 
-//@ props: C11
+//@ props: UNREACHED-C11
 //@ timeout: 1800
 //@ harness: c11_editors
 //@ desc: delete_by_index (any i32 except MIN), delete_by_name, strip_nulls, array_distinct, object_delete, object_pick, convert_to_comparable on the six documents as text and as JSONB: same outcome and byte-identical output
@@ -266,7 +266,7 @@ fn pair_fns(a: &B, b: &B, ta: bool, tb: bool) {
     let upd: bool = kani::any();
     two(&|x, y, o| object_insert(x, nm.as_str(), y, upd, o));
 }
-//@ props: C11
+//@ props: UNREACHED-C11
 //@ timeout: 3600
 //@ harness: c11_pairs_tt, c11_pairs_tb, c11_pairs_bt
 //@ desc: two-document functions compare, contains, array_overlap, concat, array_intersection, array_except, array_insert, object_insert on document pairs from {[n,s,null], {a:n,b:[true]}, n, s} with the text/JSONB choice of each argument (text-text, text-JSONB, JSONB-text) against the all-JSONB call: same result, same outcome, byte-identical output
@@ -277,7 +277,7 @@ harness!(c11_pairs_tt, split2(4, 4, |i, j| docs(i, |a| docs(j, |b| pair_fns(a, b
 harness!(c11_pairs_tb, split2(4, 4, |i, j| docs(i, |a| docs(j, |b| pair_fns(a, b, true, false)))));
 harness!(c11_pairs_bt, split2(4, 4, |i, j| docs(i, |a| docs(j, |b| pair_fns(a, b, false, true)))));
 
-//@ props: C11
+//@ props: UNREACHED-C11
 //@ timeout: 1800
 //@ harness: c11_paths
 //@ desc: path functions path_exists, path_match (predicate path), get_by_path, get_by_path_first, get_by_path_array with `$[*]`, `$.*`, `$.<name>` and the predicate `$[*] == <number literal>` on [n,s,null] and {a:n,b:[true]} as text and as JSONB: same booleans, byte-identical data and offsets
@@ -317,7 +317,7 @@ harness!(c11_paths, split2(2, 4, |k, pk| docs(k, |d| {
     }
 })));
 
-//@ props: C11
+//@ props: UNREACHED-C11
 //@ timeout: 300
 //@ expect: twin
 //@ desc: vacuity twin: the text and JSONB forms claimed to have different array lengths — must be refuted
